@@ -357,7 +357,7 @@ def classify_harness(res, pid, owns_panics):
     """Returns dict with lists: own_fail, panic_fail, foreign_fail, unwind_fail, covers_unsat, covers_sat, ok_checks"""
     out = {"own_fail": [], "panic_fail": [], "foreign_fail": [], "unwind_fail": [], "covers_unsat": [],
            "covers_sat": [], "n_checks": 0, "n_success": 0, "tag_ok": set(), "undetermined": []}
-    for c in res.get("checks", []):
+    for c in (res.get("checks") or []):
         cat = c.get("category", "")
         st = c.get("status", "")
         desc = c.get("description", "")
@@ -452,7 +452,7 @@ def select(reg, pid, tier, kfs, seed=0):
 def cbmc_stats(data):
     st = {}
     for c in (data or {}).get("cbmc", []):
-        st[c["harness_id"].split("::")[-1]] = c.get("cbmc_stats", {})
+        st[c["harness_id"].split("::")[-1]] = c.get("cbmc_stats") or {}
     return st
 
 
@@ -517,7 +517,7 @@ def do_check(pid, tier, seed, jobs, keep):
             inconclusive.append("harness %s: no result (timeout, OOM or tool error)" % h)
             per_h[h] = {"status": "no-result"}
             continue
-        for c in r.get("checks", []):
+        for c in (r.get("checks") or []):
             if is_library_code(c):
                 functions.add(c.get("function", ""))
         cl = classify_harness(r, pid, own[h])
@@ -773,6 +773,8 @@ def main():
     if a.pid not in PIDS:
         ap.error("property id must be one of C01..C19")
     jobs = a.jobs or min(16, os.cpu_count() or 4)
+    if not a.jobs and a.tier == "thorough" and a.pid in ("C02", "C10", "C11", "C12", "C13", "C14", "C15"):
+        jobs = min(jobs, 8)  # a dozen process_packet harnesses at ~3 GB each: stay within memory
     try:
         rc = do_check(a.pid, a.tier, seed, jobs, a.keep or os.environ.get("VERIF_KEEP") == "1")
     except SystemExit:
